@@ -497,3 +497,14 @@ def run(ctx):
         ctx.check("go.Figure(data=data, layout=layout)" in tfi.replace("layout=layout, data=data", "data=data, layout=layout") and "_add_ticks(layout.xaxis, h[0], kwargs)" in tfi,
                   "C20.f", f"plotly.{fname}:figure", "Figure(data=<traces>, layout=<layout with ticks>)", f"plotly {fname} no longer builds the figure from its traces and layout",
                   fi.where)
+
+    pol_l = {}
+    for p_ in function_paths(al.node):
+        cs_ = dict((U(s_[1]), s_[2]) for s_ in p_ if s_[0] == "cond")
+        sts_ = [U(s_[1]) for s_ in p_ if s_[0] == "stmt"]
+        for name_, call_ in (("title", "ax.set_title(title)"), ("xlabel", "ax.set_xlabel(xlabel)"), ("ylabel", "ax.set_ylabel(ylabel)")):
+            if name_ in cs_:
+                pol_l.setdefault((name_, cs_[name_]), set()).add(call_ in sts_)
+    ctx.check(all(pol_l.get((n_, True)) == {True} and pol_l.get((n_, False)) == {False} for n_ in ("title", "xlabel", "ylabel")), "C20.f",
+              "_add_labels:applied-iff-present", "each of title / xlabel / ylabel is set exactly when there is one",
+              f"label setters per decision: { {str(k): sorted(v) for k, v in pol_l.items()} }", al.where)
